@@ -680,6 +680,11 @@ func (l *Lifter) brAssign(x *ast.AssignStmt, rest []ast.Stmt, cur *rcur, counts 
 				}
 				it := Item{Kind: KScalar, Prim: stem, Operand: dst, Pos: pos}
 				if conv != "" {
+					if l.invalidType(x.Rhs[0]) {
+						// the emitted file does not type-check here: what the
+						// conversion is cannot be told (C12 reports the error)
+						return []Item{l.unknown(x)}, 0, true
+					}
 					if t := l.Info.TypeOf(x.Rhs[0]); t != nil {
 						if _, named := t.(*types.Named); named {
 							it.Enum = true
@@ -912,6 +917,10 @@ func (l *Lifter) srBlock(stmts []ast.Stmt, counts map[string]*countVar, limited 
 						if _, known := widthOfStem[stem]; known {
 							it := Item{Kind: KScalar, Prim: stem, Operand: dst, Pos: pos}
 							if conv != "" {
+								if l.invalidType(rhs) {
+									items = append(items, l.unknown(s))
+									continue
+								}
 								if t := l.Info.TypeOf(rhs); t != nil {
 									if _, named := t.(*types.Named); named {
 										it.Enum = true
